@@ -64,8 +64,14 @@ pub struct RelayLog {
 
 /// client_end <-> [relay] <-> server_end. Returns (client end, server end, log). Must run inside a LocalSet.
 pub fn relayed(cut: Cut) -> (Pipe, Pipe, Rc<RefCell<RelayLog>>) {
+    relayed_cap(cut, 256 * 1024)
+}
+
+/// `server_cap`: buffer size of the transport on the server's side; a small one makes the server's writes meet
+/// back-pressure (the transport answers Pending in the middle of a TLS record)
+pub fn relayed_cap(cut: Cut, server_cap: usize) -> (Pipe, Pipe, Rc<RefCell<RelayLog>>) {
     let (client_end, relay_c) = tokio::io::duplex(256 * 1024);
-    let (relay_s, server_end) = tokio::io::duplex(256 * 1024);
+    let (relay_s, server_end) = tokio::io::duplex(server_cap);
     let log = Rc::new(RefCell::new(RelayLog::default()));
     let (mut c_r, mut c_w) = tokio::io::split(relay_c);
     let (mut s_r, mut s_w) = tokio::io::split(relay_s);
